@@ -13,8 +13,9 @@ CONSTANTS
   WaitActivation = TRUE
   FixNonRequest = FALSE
   FixCloseReason = FALSE
+  DrainRemainder = TRUE
   MaxSteps = 60
 INIT MBTInit
 NEXT MBTNext
-INVARIANTS TypeOK POnePerFrame PContent PInvocations PWholeFrames PRespFIFO PNotesFIFO PAfterActivation PNoNoteAfterUnsub PClientView PReadLimit PInternalClose PCloseIsLast
+INVARIANTS TypeOK POnePerFrame PContent PInvocations PWholeFrames PRespFIFO PNotesFIFO PAfterActivation PNoNoteAfterUnsub PClientView PReadLimit PInternalClose PCloseIsLast PDocumentedExit PLaterAnswered PDrained
 CHECK_DEADLOCK FALSE
